@@ -272,7 +272,10 @@ def generate(tier, rng):
         h = max(nx * dx, ny * dy) if halo is None else halo
         nxe, nye = nx + 2 * int(h / dx), ny + 2 * int(h / dy)
         odd = (nx % 2) or (ny % 2)
-        if odd or mk == "above":
+        if odd and (nx % 2) != (ny % 2) and mk == "trunc":
+            # one odd axis (clamped) and one even axis that is really truncated
+            modes = [512 if nx % 2 else max(2, 2 * rng.randint(1, nxe // 2 - 1)), 512 if ny % 2 else max(2, 2 * rng.randint(1, nye // 2 - 1))]
+        elif odd or mk == "above":
             modes = [512, 512]          # more than any padded grid here: clamped
         elif mk == "at":
             modes = [nxe, nye]
@@ -305,6 +308,8 @@ def generate(tier, rng):
     for nx, ny in ((9, 7), (7, 10), (12, 9)):
         for hk in ("zero", "none", "incomm", "comm"):
             yield case(nx, ny, 0, hk, "above", 5, "random", "double")
+            if nx % 2 != ny % 2:
+                yield case(nx, ny, 0, hk, "trunc", 3, "random", "double")
     for k, (lf, lg) in enumerate([(a, b) for a in ("C", "F", "T", "strided") for b in ("C", "F", "T", "strided")]):
         yield "point-measurement", dict(ny=(5, 8, 12)[k % 3], nx=(7, 8, 9)[(k // 3) % 3], layout_f=lf, layout_g=lg, seed=rng.randint(0, 2 ** 31 - 1))
     # every column (and a walk through the rows) of a grid with non-representable increments as tower
